@@ -25,6 +25,11 @@ def Sym.mat : Sym → Mat
   | .P => [[0, 1], [0, 0]]       -- np.diag([1.], k=1)
   | .M => [[0, 0], [1, 0]]       -- np.diag([1.], k=-1)
 
+/-- `generate_ladder_operator`: `a_j` (dag = false) / `a†_j` (dag = true) as a list of (site, symbol):
+    σz on every site below `j`, then "+" (annihilator) or "-" (creator) on site `j` -/
+def ladder (j : Nat) (dag : Bool) : List (Nat × Sym) :=
+  (List.range j).map (fun l => (l, Sym.Z)) ++ [(j, if dag then Sym.M else Sym.P)]
+
 def wordMat (w : List Sym) : Mat := w.foldl (fun acc s => matMul acc s.mat) one2
 
 /-- `simplify_op` on one site: returns `(n_permute mod 2, simplified word)`;
